@@ -669,3 +669,51 @@ Proof.
   unfold r_field_begin. rewrite need_ok by (rewrite len_cons; lia). cbn [bind nth].
   change (i8 0) with 0%Z. change thrift_STOP with 0%Z. reflexivity.
 Qed.
+
+(* ---------- ReadMessageBegin on arbitrary bytes ---------- *)
+(* totality and extent bound on arbitrary bytes *)
+Lemma to_msg_err_ok {A} (r : res A) x : to_msg_err r = Ok x -> r = Ok x.
+Proof. destruct r; cbn [to_msg_err]; congruence. Qed.
+Lemma to_msg_err_safe {A} (r : res A) : safe r -> safe (to_msg_err r).
+Proof. destruct r; cbn [to_msg_err safe]; auto. Qed.
+
+Lemma r_message_begin_total b : safe (r_message_begin b).
+Proof.
+  unfold r_message_begin. destruct (N.ltb_spec (len b) 4) as [H4|H4]; [exact I|].
+  destruct (negb _); [exact I|].
+  rewrite slice_from_ok by lia. cbn [bind].
+  pose proof (r_string_total (drop 4 b)) as Hs.
+  destruct (r_string (drop 4 b)) as [[name l]|e|w|] eqn:E; cbn [to_msg_err bind safe] in *; auto.
+  apply r_string_bounded in E. rewrite drop_len in E by lia.
+  rewrite slice_from_ok by lia. cbn [bind].
+  pose proof (r_i32_total (drop (4 + l) b)) as Hi.
+  destruct (r_i32 (drop (4 + l) b)) as [[sq l2]|e|w|]; cbn [to_msg_err bind safe] in *; auto.
+Qed.
+
+Lemma r_message_begin_bounded b name ty seq n : r_message_begin b = Ok (name, ty, seq, n) -> n <= len b.
+Proof.
+  unfold r_message_begin. destruct (N.ltb_spec (len b) 4) as [H4|H4]; [discriminate|].
+  destruct (negb _); [discriminate|].
+  rewrite slice_from_ok by lia. cbn [bind].
+  destruct (r_string (drop 4 b)) as [[nm l]|e|w|] eqn:E; cbn [to_msg_err bind]; try discriminate.
+  apply r_string_bounded in E. rewrite drop_len in E by lia.
+  rewrite slice_from_ok by lia. cbn [bind].
+  destruct (r_i32 (drop (4 + l) b)) as [[sq l2]|e|w|] eqn:E2; cbn [to_msg_err bind]; try discriminate.
+  apply r_i32_bounded in E2. rewrite drop_len in E2 by lia.
+  intros Hx. assert (Hn : n = 4 + l + l2) by congruence. lia.
+Qed.
+
+(* the only errors of the buffer reader *)
+Lemma r_message_begin_errs b e : r_message_begin b = Err e -> e = e_read_message \/ e = e_bad_version.
+Proof.
+  unfold r_message_begin. destruct (N.ltb_spec (len b) 4) as [H4|H4]; [intros Hx; inversion Hx; auto|].
+  destruct (negb _); [intros Hx; inversion Hx; auto|].
+  rewrite slice_from_ok by lia. cbn [bind].
+  destruct (r_string (drop 4 b)) as [[nm l]|x|w|] eqn:E; cbn [to_msg_err bind]; try discriminate;
+    [|intros Hx; inversion Hx; auto].
+  apply r_string_bounded in E. rewrite drop_len in E by lia.
+  rewrite slice_from_ok by lia. cbn [bind].
+  destruct (r_i32 (drop (4 + l) b)) as [[sq l2]|x|w|] eqn:E2; cbn [to_msg_err bind]; try discriminate.
+  intros Hx; inversion Hx; auto.
+Qed.
+
